@@ -594,24 +594,22 @@ Definition size_ok (o : txo) : Prop :=
 
 Theorem size_fresh t : size_ok (mkTxo t 0).
 Proof.
-  intros m Hm. unfold size. cbn [csize inner]. change (0 <? 0) with false. cbv iota.
+  intros m Hm. cbn [inner] in Hm. unfold size. cbn [csize inner]. change (0 <? 0) with false. cbv iota.
   destruct t as [v|v|v|v sc|v]; cbn [marshal_binary tx_type tx_fields tx_sidecar] in *.
   - inversion Hm. reflexivity.
   - inversion Hm. rewrite lenN_cons. change (AccessListTxType =? LegacyTxType) with false. cbv iota. lia.
   - inversion Hm. rewrite lenN_cons. change (DynamicFeeTxType =? LegacyTxType) with false. cbv iota. lia.
   - change (BlobTxType =? LegacyTxType) with false. cbv iota.
-    destruct (blob_encode v sc) as [p|] eqn:Ep; [|discriminate]. inversion Hm; subst m. rewrite lenN_cons.
+    destruct (blob_encode v sc) as [p|] eqn:Ep; [|discriminate Hm]. inversion Hm; subst m. rewrite lenN_cons.
     destruct sc as [s|]; cbn [blob_encode] in Ep.
-    + unfold sc_encoded_size. rewrite !vsize_enc.
+    + unfold sc_encoded_size. rewrite <- (vsize_enc v).
       destruct (N.eqb_spec (sc_version s) 0) as [E0|E0].
-      * inversion Ep; subst p. unfold encode_typed at 4. cbn [enc_v map]. rewrite lenN_enc_lst.
-        rewrite !enc_list_cons, !lenN_app. unfold encode_typed. cbn [enc_list flat_map].
-        rewrite app_nil_r. rewrite N.add_0_r, N.add_comm. f_equal. f_equal. lia.
-      * destruct (N.eqb_spec (sc_version s) 1) as [E1|E1]; [|discriminate].
-        inversion Ep; subst p. unfold encode_typed at 4. cbn [enc_v map]. rewrite lenN_enc_lst.
-        rewrite !enc_list_cons, !lenN_app. unfold encode_typed. cbn [enc_list flat_map].
-        rewrite app_nil_r. rewrite E1. change (lenN (enc (Str (be_bytes 1)))) with 1.
-        change (int_size 1) with 1. rewrite N.add_comm. f_equal. f_equal. lia.
+      * inversion Ep; subst p. rewrite <- vsize_enc. cbn [vsize fold_right].
+        rewrite N.add_comm. f_equal. f_equal. lia.
+      * destruct (N.eqb_spec (sc_version s) 1) as [E1|E1]; [|discriminate Ep].
+        inversion Ep; subst p. rewrite <- vsize_enc. cbn [vsize fold_right]. rewrite E1.
+        change (bytes_size (be_bytes 1)) with 1. change (int_size 1) with 1.
+        rewrite N.add_comm. f_equal. f_equal. lia.
     + inversion Ep; subst p. lia.
   - inversion Hm. rewrite lenN_cons. change (SetCodeTxType =? LegacyTxType) with false. cbv iota. lia.
 Qed.
